@@ -14,7 +14,7 @@ from .base import (R as R0, BV, B64, B8, Contract, Frame, Ctx, LoopSpec, exc, b2
 from .ints import (flag, CT_POINTER, CT_ARRAY, CT_STRUCT, CT_UNION, CT_PRIMITIVE_CHAR, CT_IS_PTR_TO_OWNED)
 from .index import fits_ssize
 from .layout import F, s64, CF, CT, events, EVENTS
-from vf.cexec import Exec, NotSupported
+from vf.cexec import Exec, NotSupported, CaseOf
 from vf.cfront import line_of
 from specs import arith as A
 
@@ -103,6 +103,7 @@ class allocate_owning_object(Contract):
 @R.add
 class allocate_with_allocator(Contract):
     name = 'allocate_with_allocator'
+    record_calls = True
 
     def default(self, c):
         return F(c, c.old, c['allocator'], 'ca_alloc', 'cffi_allocator_t') == 0
@@ -708,6 +709,17 @@ class direct_newp_base(Contract):
                  z3.Implies(z3.And(p['isarr'], p['size'] >= 0), p['isize'] >= 0)),
                 ('no-pending-exception', st.err == 0)]
 
+    def zero_cases(self, c, open_arr, isint):
+        """an exhaustive case split for the (quantified) zero-fill clause"""
+        T, Fl = z3.BoolVal(True), z3.BoolVal(False)
+        if self.case != 'array':
+            return [('any', [])]
+        isb = has_flag(c, c.old, c['init'], TPFLAGS_BYTES)
+        return [('array of known length', [(open_arr, Fl)]),
+                ('open array, int length', [(open_arr, T), (isint, T)]),
+                ('open array, bytes', [(open_arr, T), (isint, Fl), (isb, T)]),
+                ('open array, list or tuple', [(open_arr, T), (isint, Fl), (isb, Fl)])]
+
     def n_len(self, c):
         st0, init = c.old, c['init']
         return z3.If(is_long(c, st0, init), z3.Extract(63, 0, int_w(init)),
@@ -775,9 +787,19 @@ class direct_newp_base(Contract):
                                g(st1, 'cfo_ct') == z3.If(p['isptr'], p['item'], p['ct'])))),
             ('without an initializer (or a bare length): no conversion at all',
              z3.Implies(z3.And(sc, ok, small, init_eff == none(c)), cfo_unchanged(c))),
-            ('the data area is all zero when the conversion starts (or on return if there is none)',
-             z3.Implies(z3.And(sc, ok, small), zero_region(before, data, datasize))),
+        ] + [
+            ('the data area is all zero when the conversion starts (or on return if there is none) [%s]' % lab,
+             z3.Implies(z3.And(sc, ok, small), zero_region(before, data, datasize)), CaseOf(pairs))
+            for lab, pairs in self.zero_cases(c, open_arr, isint)
+        ] + [
             ('failure only with an exception', z3.Implies(z3.And(sc, z3.Not(ok)), st1.err != 0)),
+            # (quantifier-free companion of the zero-fill clause: decidable also when it fails)
+            ('the data area comes from exactly one allocation, made with the allocator given and with clearing on',
+             z3.Implies(z3.And(sc, ok, small),
+                        z3.And(st1.gvar('tmp:calls:allocate_with_allocator', B64) == st0.gvar('tmp:calls:allocate_with_allocator', B64) + 1,
+                               F(c, st1, st1.gvar('tmp:arg:allocate_with_allocator:allocator', B64), 'ca_dont_clear', 'cffi_allocator_t') == 0,
+                               F(c, st1, st1.gvar('tmp:arg:allocate_with_allocator:allocator', B64), 'ca_alloc', 'cffi_allocator_t') == 0,
+                               st1.gvar('tmp:arg:allocate_with_allocator:datasize', B64) == datasize))),
         ]
         if self.case == 'array':
             out += [('size of the data area of an open array: length * itemsize, and the length is stored',
